@@ -278,7 +278,8 @@ def glob_in_run_dir(
     pattern = os.path.join(glob.escape(str(run_dir)), pattern)
     # Note: don't use pathlib.Path.glob() because when you give it an exact
     # filename instead of pattern, it doesn't return broken symlinks
-    matches = sorted(Path(i) for i in glob.iglob(pattern, recursive=True))
+    # (a set because e.g. consecutive '**' segments make glob repeat results)
+    matches = sorted({Path(i) for i in glob.iglob(pattern, recursive=True)})
     # sort guarantees parents come before their children
     if len(matches) == 1 and not os.path.lexists(matches[0]):
         # https://bugs.python.org/issue35201
